@@ -95,6 +95,20 @@ class SortSuite(Suite):
                 shape = gen.pick_shape(rng, k); k += 1
                 form = ["table", "root0", "rootany", "sorted"][k % 4]
                 out.append(sort_case(rng, n, shape, form))
+        # small scope, exhaustively: every tree with the root first on up to 4 (5) nodes — as a tree object, and as a table whose rows are
+        # rotated / reversed and whose ids are spread out
+        for n in range(1, (6 if tier == "thorough" or widen else 5)):
+            for t, pids in enumerate(gen.all_root0_trees(n)):
+                base = {"key": list(range(100, 100 + n)), "types": [(3 * i + t) % 8 for i in range(n)], "r": [(i + 1) / 8 for i in range(n)],
+                        "extra": [[float(i * i) for i in range(n)]] if t % 3 == 0 else []}
+                out.append({"class": f"all-n{n}/root0", "ids": list(range(n)), "pids": pids, "form": "root0", **base})
+                ids = [7 + 3 * i for i in range(n)]
+                order = list(range(n))[t % n:] + list(range(n))[:t % n]
+                if t % 2:
+                    order.reverse()
+                row = lambda col: [col[i] for i in order]
+                out.append({"class": f"all-n{n}/table", "ids": row(ids), "pids": row([-1 if p < 0 else ids[p] for p in pids]), "form": "table",
+                            "key": row(base["key"]), "types": row(base["types"]), "r": row(base["r"]), "extra": [row(e) for e in base["extra"]]})
         return out
 
     def run(self, case):
